@@ -689,6 +689,10 @@ pub struct SCase {
     pub cfg: NodeCfg,
     pub partitions: u32,
     pub ops: Vec<SOp>,
+    /// numeric id of the topic under test inside stream 1 (2 = a one-partition topic with id 1 is created first,
+    /// so that stream id != topic id); absent in older files = 1
+    #[serde(default)]
+    pub topic_id: u8,
 }
 
 struct SInterp<'a> {
@@ -728,6 +732,17 @@ impl<'a> SInterp<'a> {
     fn gid(g: usize) -> Identifier {
         Identifier::numeric(g as u32 + 1).unwrap()
     }
+    /// the group addressed by name instead of by id (bit 5 of the selector byte)
+    fn gref(sel: u8, g: usize) -> Identifier {
+        if sel & 32 != 0 {
+            Identifier::named(["g", "h"][g]).unwrap()
+        } else {
+            Self::gid(g)
+        }
+    }
+    fn t(&self) -> Identifier {
+        Identifier::numeric(if self.case.topic_id == 2 { 2 } else { 1 }).unwrap()
+    }
     /// selector byte -> (group index, client): bit 4 selects the second group
     fn split(c: u8) -> (usize, u8) {
         (((c >> 4) & 1) as usize, c & 15)
@@ -749,7 +764,7 @@ impl<'a> SInterp<'a> {
         let why = format!("{why}, group {}", g + 1);
         let why = why.as_str();
         let n = self.node();
-        let r = n.block_on(async { self.admin.as_ref().unwrap().get_consumer_group(&sid(), &tid(), &Self::gid(g)).await });
+        let r = n.block_on(async { self.admin.as_ref().unwrap().get_consumer_group(&sid(), &self.t(), &Self::gid(g)).await });
         let gi = g;
         let g = match r {
             Ok(Some(g)) => g,
@@ -783,13 +798,16 @@ impl<'a> SInterp<'a> {
     fn poll(&mut self, sel: u8, count: u32) -> Check {
         let (g, c) = Self::split(sel);
         self.client(c)?;
+        if sel & 32 != 0 {
+            self.out.label("group-polled-by-name");
+        }
         let n = self.node.as_ref().unwrap();
         let cl = self.clients.get(&c).unwrap();
         let me = n.block_on(async { iggy::client::SystemClient::get_me(cl).await }).map(|m| m.client_id).unwrap_or(0);
         let shares = self.group_view(g, "before poll")?;
         let n = self.node.as_ref().unwrap();
         let cl = self.clients.get(&c).unwrap();
-        let r = n.block_on(async { cl.poll_messages(&sid(), &tid(), None, &Consumer::group(Self::gid(g)), &PollingStrategy::next(), count, true).await });
+        let r = n.block_on(async { cl.poll_messages(&sid(), &self.t(), None, &Consumer::group(Self::gref(sel, g)), &PollingStrategy::next(), count, true).await });
         self.panics("group poll")?;
         let is_member = self.members[g].contains(&c);
         let pm = match r {
@@ -863,9 +881,13 @@ impl<'a> SInterp<'a> {
         let r = n.block_on(async {
             let a = self.admin.as_ref().unwrap();
             a.create_stream("s", Some(1)).await?;
-            a.create_topic(&sid(), "t", parts, CompressionAlgorithm::None, None, Some(1), IggyExpiry::NeverExpire, MaxTopicSize::Unlimited).await?;
-            a.create_consumer_group(&sid(), &tid(), "g", Some(1)).await?;
-            a.create_consumer_group(&sid(), &tid(), "h", Some(2)).await?;
+            let topic_id = if self.case.topic_id == 2 { 2 } else { 1 };
+            if topic_id == 2 {
+                a.create_topic(&sid(), "pad", 1, CompressionAlgorithm::None, None, Some(1), IggyExpiry::NeverExpire, MaxTopicSize::Unlimited).await?;
+            }
+            a.create_topic(&sid(), "t", parts, CompressionAlgorithm::None, None, Some(topic_id), IggyExpiry::NeverExpire, MaxTopicSize::Unlimited).await?;
+            a.create_consumer_group(&sid(), &self.t(), "g", Some(1)).await?;
+            a.create_consumer_group(&sid(), &self.t(), "h", Some(2)).await?;
             Ok::<(), IggyError>(())
         });
         if let Err(e) = r {
@@ -873,6 +895,9 @@ impl<'a> SInterp<'a> {
         }
         self.sent = vec![0; parts as usize];
         self.handed = [vec![0; parts as usize], vec![0; parts as usize]];
+        if self.case.topic_id == 2 {
+            self.out.label("topic-id-differs-from-stream-id");
+        }
         let ops = self.case.ops.clone();
         for (i, op) in ops.iter().enumerate() {
             self.step = i;
@@ -883,7 +908,7 @@ impl<'a> SInterp<'a> {
                     self.client(c)?;
                     let n = self.node.as_ref().unwrap();
                     let cl = self.clients.get(&c).unwrap();
-                    let r = n.block_on(async { cl.join_consumer_group(&sid(), &tid(), &Self::gid(g)).await });
+                    let r = n.block_on(async { cl.join_consumer_group(&sid(), &self.t(), &Self::gref(sel, g)).await });
                     self.panics("join")?;
                     if let Err(e) = r {
                         return Err(self.fail("join-failed", format!("{e}")));
@@ -902,7 +927,7 @@ impl<'a> SInterp<'a> {
                     }
                     let n = self.node.as_ref().unwrap();
                     let cl = self.clients.get(&c).unwrap();
-                    let r = n.block_on(async { cl.leave_consumer_group(&sid(), &tid(), &Self::gid(g)).await });
+                    let r = n.block_on(async { cl.leave_consumer_group(&sid(), &self.t(), &Self::gref(sel, g)).await });
                     self.panics("leave")?;
                     if let Err(e) = r {
                         return Err(self.fail("leave-failed", format!("{e}")));
@@ -928,13 +953,13 @@ impl<'a> SInterp<'a> {
                         // wait for the table AND for the groups' member lists, up to 20 s on a loaded machine;
                         // what is still wrong after that is judged by the regular check below)
                         let want = 1 + self.clients.len();
-                        let deadline = std::time::Instant::now() + std::time::Duration::from_secs(20);
+                        let deadline = std::time::Instant::now() + std::time::Duration::from_secs(10);
                         loop {
                             let cnt = n.block_on(async { iggy::client::SystemClient::get_clients(self.admin.as_ref().unwrap()).await }).map(|v| v.len()).unwrap_or(0);
                             let mut groups_ok = true;
                             for g in 0..2usize {
                                 let mc = n
-                                    .block_on(async { self.admin.as_ref().unwrap().get_consumer_group(&sid(), &tid(), &Self::gid(g)).await })
+                                    .block_on(async { self.admin.as_ref().unwrap().get_consumer_group(&sid(), &self.t(), &Self::gid(g)).await })
                                     .ok()
                                     .flatten()
                                     .map(|d| d.members_count as usize);
@@ -956,7 +981,7 @@ impl<'a> SInterp<'a> {
                 SOp::AddParts(k) => {
                     let k = k.max(1) as u32;
                     let n = self.node();
-                    let r = n.block_on(async { self.admin.as_ref().unwrap().create_partitions(&sid(), &tid(), k).await });
+                    let r = n.block_on(async { self.admin.as_ref().unwrap().create_partitions(&sid(), &self.t(), k).await });
                     self.panics("create_partitions")?;
                     if let Err(e) = r {
                         return Err(self.fail("create-partitions-failed", format!("{e}")));
@@ -974,7 +999,7 @@ impl<'a> SInterp<'a> {
                         continue;
                     }
                     let n = self.node();
-                    let r = n.block_on(async { self.admin.as_ref().unwrap().delete_partitions(&sid(), &tid(), k as u32).await });
+                    let r = n.block_on(async { self.admin.as_ref().unwrap().delete_partitions(&sid(), &self.t(), k as u32).await });
                     self.panics("delete_partitions")?;
                     if let Err(e) = r {
                         return Err(self.fail("delete-partitions-failed", format!("{e}")));
@@ -994,7 +1019,7 @@ impl<'a> SInterp<'a> {
                         ms.push(Message::new(None, Bytes::from(msgs::fill(self.serial, 16)), None));
                     }
                     let n = self.node();
-                    let r = n.block_on(async { self.admin.as_ref().unwrap().send_messages(&sid(), &tid(), &Partitioning::partition_id(pid), &mut ms).await });
+                    let r = n.block_on(async { self.admin.as_ref().unwrap().send_messages(&sid(), &self.t(), &Partitioning::partition_id(pid), &mut ms).await });
                     if let Err(e) = r {
                         return Err(self.fail("send-failed", format!("{e}")));
                     }
@@ -1040,6 +1065,11 @@ impl<'a> SInterp<'a> {
 }
 
 /// second-group selector bit (bit 4 of the client byte): group 1 twice as often as group 2
+/// "address the group by name" bit (bit 5 of the selector byte), a third of the time
+fn by_name() -> BoxedStrategy<u8> {
+    prop_oneof![2 => Just(0u8), 1 => Just(32u8)].boxed()
+}
+
 fn grp() -> BoxedStrategy<u8> {
     prop_oneof![2 => Just(0u8), 1 => Just(16u8)].boxed()
 }
@@ -1049,16 +1079,16 @@ impl Engine for Groups {
     fn strategy(&self, p: &Params) -> BoxedStrategy<SCase> {
         let max_ops = if p.tier == Tier::Thorough { 50 } else { 30 };
         let op = prop_oneof![
-            6 => (0u8..5, grp()).prop_map(|(c, g)| SOp::Join(c | g)),
-            2 => (0u8..5, grp()).prop_map(|(c, g)| SOp::Leave(c | g)),
+            6 => (0u8..5, grp(), by_name()).prop_map(|(c, g, n)| SOp::Join(c | g | n)),
+            2 => (0u8..5, grp(), by_name()).prop_map(|(c, g, n)| SOp::Leave(c | g | n)),
             2 => (0u8..5).prop_map(SOp::Disconnect),
             2 => (1u8..4).prop_map(SOp::AddParts),
             2 => (1u8..4).prop_map(SOp::DelParts),
             8 => (any::<u16>(), 1u8..8).prop_map(|(part, n)| SOp::Send { part, n }),
-            12 => (0u8..5, grp(), 1u8..6).prop_map(|(client, g, count)| SOp::Poll { client: client | g, count }),
+            12 => (0u8..5, grp(), by_name(), 1u8..6).prop_map(|(client, g, n, count)| SOp::Poll { client: client | g | n, count }),
         ];
-        (prop_oneof![Just(1u32), Just(1000)], 1u32..=5, proptest::collection::vec(op, 1..=max_ops))
-            .prop_map(|(thr, partitions, ops)| SCase { cfg: NodeCfg { save_threshold: thr, ..NodeCfg::default() }, partitions, ops })
+        (prop_oneof![Just(1u32), Just(1000)], 1u32..=5, proptest::collection::vec(op, 1..=max_ops), prop_oneof![Just(1u8), Just(2u8)])
+            .prop_map(|(thr, partitions, ops, topic_id)| SCase { cfg: NodeCfg { save_threshold: thr, ..NodeCfg::default() }, partitions, ops, topic_id })
             .boxed()
     }
     fn run(&self, case: &SCase, _p: &Params) -> Outcome {
